@@ -15,7 +15,7 @@ from __future__ import annotations
 import random
 
 from .. import assign_common as ac
-from .. import c04_protocols
+from .. import c04_genbases, c04_protocols
 from .. import core
 
 LEVEL = "model_checking"
@@ -79,6 +79,8 @@ def run(check: core.Check) -> None:
     ac.judge(check, obs, "tlc-simulate-depth2", CLAUSES)
     # run-time protocols: structural check, recursion guard, positive cache (spec/Protocols.tla)
     c04_protocols.run_slice(check, rnd)
+    # user generic classes: argument comparison through get_generic_bases / _extract_bases (spec/GenericBases.tla)
+    c04_genbases.run_slice(check)
     check.cov["rule"] += ("; protocol slice: (A, B) with A a run-time protocol type (or a union / object / nominal class) and B a "
                           "candidate class, its instance as a literal, a protocol type or a union, each replayed in two histories")
 
@@ -87,5 +89,7 @@ def replay(check: core.Check, witness: dict) -> None:
     c = witness["case"]
     if witness.get("slice") == "protocols":
         return c04_protocols.replay(check, witness)
+    if witness.get("slice") == "genericbases":
+        return c04_genbases.replay(check, witness)
     obs = [ac.observe_pair((0, {"a": c["a"], "b": c["b"]}))]
     ac.judge(check, obs, "replay", CLAUSES)
